@@ -198,6 +198,9 @@ def e3_search(part, label, spec, wfin, judge, *, bound=None, max_execs=3000, sub
                 case.update(schedule=prefix, trace=trace)
                 part.violation(v[0], case, v[1])
         part.sample(dict(label, trace=trace, outcome=o.kind), cap=3)
+        if nviol >= 5:  # enough counterexamples for this search (hangs are expensive): stop and report the cap
+            stats["capped"] = True
+            break
     part.states += stats["states"]
     part.transitions += stats["transitions"]
     if stats["capped"]:
